@@ -100,8 +100,9 @@ fn main() {
             ["jsreset"] => { let mut c = bvh::new_context(bvh::Limits::default()); js_run(&mut c, None, None, "var a = []; 0"); ctx = Some(c); "ok".to_string() }
             ["aset", k, v] => { let c = ctx.as_mut().unwrap(); js_run(c, Some(k.parse().unwrap()), Some(val(v)), "a[k] = v; 0"); js_dump(c) }
             ["aget", k] => { let c = ctx.as_mut().unwrap(); js_run(c, Some(k.parse().unwrap()), None, "a[k]") }
-            ["apush", v] => { let c = ctx.as_mut().unwrap(); js_run(c, None, Some(val(v)), "a.push(v); 0"); js_dump(c) }
-            ["ashift"] => { let c = ctx.as_mut().unwrap(); let r = js_run(c, None, None, "a.shift()"); format!("r={} {}", r, js_dump(c)) }
+            ["apush", v] => { let c = ctx.as_mut().unwrap(); let r = js_run(c, None, Some(val(v)), "a.push(v); 0"); format!("{}{}", if r.starts_with("throw") { "throw " } else { "" }, js_dump(c)) }
+            ["ashift"] => { let c = ctx.as_mut().unwrap(); let r = js_run(c, None, None, "a.shift()"); format!("r={} {}", if r.starts_with("throw") { "throw" } else { r.as_str() }, js_dump(c)) }
+            ["alock"] => { let c = ctx.as_mut().unwrap(); js_run(c, None, None, "Object.defineProperty(a, 'length', {writable: false}); 0"); js_dump(c) }
             ["adel", k] => { let c = ctx.as_mut().unwrap(); js_run(c, Some(k.parse().unwrap()), None, "delete a[k]; 0"); js_dump(c) }
             _ => "bad-op".into(),
         };
